@@ -94,9 +94,12 @@ func (panel *userPanel) TerminateActiveUser(user *ActiveUser, reason string) {
 		"reason": reason,
 	}).Info("Terminating active user")
 	panel.updateUsageQueueForOne(user)
-	user.closeAllSessions(reason)
+	user.terminate(reason)
 	panel.activeUsersM.Lock()
-	delete(panel.activeUsers, user.arrUID)
+	// only forget this very record: the UID may already be active again under a new one
+	if panel.activeUsers[user.arrUID] == user {
+		delete(panel.activeUsers, user.arrUID)
+	}
 	panel.activeUsersM.Unlock()
 }
 
